@@ -1043,11 +1043,16 @@ func verifRoundTripNextHop(a *PathAttributeNextHop) bool {
 // field) that state is "TunnelID is set".
 //@ props C05
 //@ func (*PathAttributePmsiTunnel).DecodeFromBytes
+//@   tag C05 C06
 //@   requires p != nil
-//@   claims post bounds
+//@   claims post bounds at-call
 //@   modifies p.*
 //@   ensures p.TunnelID != nil
 //@   ensures result != nil ==> isMsgErr(result)
+// from C06 (a malformed attribute is not accepted as well-formed): the tunnel identifier of ingress replication is an
+// IPv4 or IPv6 address (RFC 6514 5) - an identifier of another length is not turned into the invalid address and
+// passed on
+//@   at-call netip.AddrFromSlice( requires len(arg0) == 4 || len(arg0) == 16
 //@ func labelSerialize
 //@   modifies nothing
 //@ func labelDecode
